@@ -56,7 +56,7 @@ def flow_unit(ctx):
                    '*', '**')][:1]
         if q == 'join':
             src = ['collection1']
-        if q == 'zip_':
+        if q in ('zip_', 'concat'):
             src = ['collections']
         name = 'streaming:%s.%s' % (fd['module'].split('.')[-1], q)
         if node is None or not src:
